@@ -34,6 +34,21 @@ pub const RSA4096_WS: [(&str, &str); 2] = [
     (include_str!("../../fixtures/rsa4096_ws_1.pem"), include_str!("../../fixtures/rsa4096_ws_1.pub.pem")),
 ];
 
+/// honest openssl-generated keys with public exponents other than 65537 (`-pkeyopt rsa_keygen_pubexp:`):
+/// 3, 0x83, 0x8001 and 0x80000001 -- the last three have the top bit of their leading byte set, so
+/// their DER INTEGER carries a sign octet
+pub const RSA2048_EXP: [(&str, &str); 4] = [
+    (include_str!("../../fixtures/rsa2048_e3.pem"), include_str!("../../fixtures/rsa2048_e3.pub.pem")),
+    (include_str!("../../fixtures/rsa2048_e83.pem"), include_str!("../../fixtures/rsa2048_e83.pub.pem")),
+    (include_str!("../../fixtures/rsa2048_e8001.pem"), include_str!("../../fixtures/rsa2048_e8001.pub.pem")),
+    (include_str!("../../fixtures/rsa2048_e80000001.pem"), include_str!("../../fixtures/rsa2048_e80000001.pub.pem")),
+];
+pub const RSA4096_EXP: [(&str, &str); 3] = [
+    (include_str!("../../fixtures/rsa4096_e3.pem"), include_str!("../../fixtures/rsa4096_e3.pub.pem")),
+    (include_str!("../../fixtures/rsa4096_e11.pem"), include_str!("../../fixtures/rsa4096_e11.pub.pem")),
+    (include_str!("../../fixtures/rsa4096_e83.pem"), include_str!("../../fixtures/rsa4096_e83.pub.pem")),
+];
+
 pub const RSA2048: [(&str, &str); 4] = [
     (include_str!("../../fixtures/rsa2048_0.pem"), include_str!("../../fixtures/rsa2048_0.pub.pem")),
     (include_str!("../../fixtures/rsa2048_1.pem"), include_str!("../../fixtures/rsa2048_1.pub.pem")),
@@ -52,12 +67,44 @@ pub const RSA_WRONG: [(u32, &str, &str); 4] = [
     (3072, include_str!("../../fixtures/rsa3072.pem"), include_str!("../../fixtures/rsa3072.pub.pem")),
 ];
 
+pub const V1_SIGNING_POOL: usize = 15;
+pub const V1_PKE_POOL: usize = 7;
+
+fn v1_pke_pair(idx: usize) -> (&'static str, &'static str) {
+    match idx % V1_PKE_POOL {
+        i @ 0..=1 => RSA4096[i],
+        i @ 2..=3 => RSA4096_WS[i - 2],
+        i => RSA4096_EXP[i - 4],
+    }
+}
+
+/// Modulus of a pool RSA-2048 signing key, read from the fixture's SPKI DER.
+pub fn rsa2048_modulus(idx: usize) -> Option<Vec<u8>> {
+    let (pem, _) = pool_key(Kind::Public, idx)?;
+    let der = crate::keycheck::pem_to_der(pem)?;
+    let pat = [0x02u8, 0x82, 0x01, 0x01, 0x00];
+    let at = der.windows(5).position(|w| w == pat)?;
+    der.get(at + 5..at + 5 + 256).map(|x| x.to_vec())
+}
+
+/// Public exponent of a pool RSA key.
+pub fn rsa_exponent(kind: Kind, idx: usize) -> Option<Vec<u8>> {
+    let (pem, secret) = pool_key(kind, idx)?;
+    let der = crate::keycheck::pem_to_der(pem)?;
+    if secret {
+        crate::refimpl::der_integers(&der)?.get(2).cloned()
+    } else {
+        crate::refimpl::der_integers(der.get(24..)?)?.get(1).cloned()
+    }
+}
+
 fn v1_signing_pair(idx: usize) -> (&'static str, &'static str) {
-    match idx % 11 {
+    match idx % V1_SIGNING_POOL {
         i @ 0..=3 => RSA2048[i],
         i @ 4..=5 => RSA2048_PHI[i - 4],
         i @ 6..=8 => RSA2048_SHORT[i - 6],
-        i => RSA2048_WS[i - 9],
+        i @ 9..=10 => RSA2048_WS[i - 9],
+        i => RSA2048_EXP[i - 11],
     }
 }
 
@@ -76,8 +123,8 @@ pub fn pool_key(kind: Kind, idx: usize) -> Option<(&'static str, bool)> {
     match kind {
         Kind::Secret => Some((v1_signing_pair(idx).0, true)),
         Kind::Public => Some((v1_signing_pair(idx).1, false)),
-        Kind::PkeSecret => Some((if idx % 4 < 2 { RSA4096[idx % 4].0 } else { RSA4096_WS[idx % 4 - 2].0 }, true)),
-        Kind::PkePublic => Some((if idx % 4 < 2 { RSA4096[idx % 4].1 } else { RSA4096_WS[idx % 4 - 2].1 }, false)),
+        Kind::PkeSecret => Some((v1_pke_pair(idx).0, true)),
+        Kind::PkePublic => Some((v1_pke_pair(idx).1, false)),
         Kind::Local => None,
     }
 }
